@@ -300,7 +300,12 @@ def gen_cases(rng, tier):
     cases = []
     quick = tier == "quick"
     # 1. orthogonal grids: every dimension vector with few cells, both classes, torus on/off
-    for dims in _dim_vectors(4, 4, 16 if quick else 36):
+    vecs = _dim_vectors(4, 4, 16 if quick else 36)
+    if quick:
+        # 4 axes: one representative per multiset of sizes in two orders (small axes first / last); every vector
+        # with <= 3 axes stays (sizes 1 and 2 in every position: colliding wrapped offsets, self connections)
+        vecs = [d for d in vecs if len(d) < 4 or list(d) == sorted(d) or list(d) == sorted(d, reverse=True)]
+    for dims in vecs:
         for kind in ("moore", "vn"):
             for torus in (False, True):
                 cases.append(_grid_case(rng, kind, dims, torus, rng.randint(2, 4)))
@@ -314,6 +319,10 @@ def gen_cases(rng, tier):
         n = rng.choice([1, 2, 2, 2, 3, 3, 4])
         dims = tuple(rng.randint(1, 5 if n <= 2 else (4 if n == 3 else 3)) for _ in range(n))
         cases.append(_grid_case(rng, rng.choice(["moore", "vn"]), dims, rng.random() < 0.5, rng.randint(2, 5)))
+    # deep recursion: odd and even radii above 256 on a path that is not saturated (oracle only: the memo of the
+    # Gallina model is an association list, 16k entries are too slow for vm_compute)
+    cases.append({"space": {"kind": "vn", "dims": [262], "torus": False}, "oracle_only": True,
+                  "ops": [["build"], ["nbhd", 0, 0, 257, False], ["nbhd", 1, 2, 258, True], ["nbhd", 0, 0, 256, False]]})
     # 2. hex
     for (h, w) in _hex_dims(4 if quick else 6):
         for torus in (False, True):
@@ -526,8 +535,8 @@ def _inner_uncached():
             import grid_geom
 
             _UNCACHED = ": option (list cparam) := None" in grid_geom.c_inner_cache()
-        except Exception:  # noqa: BLE001  translator broken: reported by the framework, nothing to add here
-            _UNCACHED = False
+        except Exception as e:  # noqa: BLE001  translator broken: reported by the framework
+            _UNCACHED = "not memoised" in str(e)
     return _UNCACHED
 
 
@@ -546,7 +555,34 @@ def _model_affordable(case, conn):
     return cost <= 200000
 
 
+QUERY_CPU_BUDGET = 2.0   # seconds of CPU time of the worker for ONE neighbourhood query
+
+
+class _Budget(Exception):
+    pass
+
+
+def _with_budget(fn):
+    """run fn() under a CPU-time budget (ITIMER_PROF counts CPU of this process, so a loaded machine does not
+    matter); raises _Budget when exceeded.  Speed is not part of the statement: an overrun is an observation
+    ([-4]), never a verdict by itself - the un-memoised shape is reported through T1 (cell_inner_cache)."""
+    import signal
+
+    def _h(signum, frame):
+        raise _Budget()
+
+    old = signal.signal(signal.SIGPROF, _h)
+    signal.setitimer(signal.ITIMER_PROF, QUERY_CPU_BUDGET)
+    try:
+        return fn()
+    finally:
+        signal.setitimer(signal.ITIMER_PROF, 0)
+        signal.signal(signal.SIGPROF, old)
+
+
 def run_impl(case):
+    global QUERY_CPU_BUDGET
+    QUERY_CPU_BUDGET = 20.0 if case.get("oracle_only") else 2.0
     sp = case["space"]
     cls = _CLS[sp["kind"]]
     import signal
@@ -577,6 +613,7 @@ def run_impl(case):
 
     model = mesa.Model(seed=1)
     agents, agent_id, loc = {}, {}, {}
+    overrun = False
     obs, failures, ops_for_model = [], [], []
     conn = [[idx.get(id(v), -1) for v in c.connections.values()] for c in cells]
     nconn = sum(len(x) for x in conn)
@@ -645,9 +682,16 @@ def run_impl(case):
                 continue
             if kind == "agents":
                 _, form, _, r, ic = op
+                if overrun:
+                    obs.append([-4])
+                    continue
                 try:
-                    coll = cell.get_neighborhood(r, ic) if form == 0 else (
-                        cell.get_neighborhood(radius=r, include_center=ic) if form == 1 else cell.get_neighborhood(r, include_center=ic))
+                    coll = _with_budget(lambda: cell.get_neighborhood(r, ic) if form == 0 else (
+                        cell.get_neighborhood(radius=r, include_center=ic) if form == 1 else cell.get_neighborhood(r, include_center=ic)))
+                except _Budget:
+                    overrun = True
+                    obs.append([-4])
+                    continue
                 except ValueError:
                     if r < 1:
                         obs.append([-1, E_RADIUS])
@@ -674,13 +718,20 @@ def run_impl(case):
                 continue
             if kind == "nbhd":
                 _, form, _, r, ic = op
+                if overrun:
+                    obs.append([-4])
+                    continue
                 try:
                     if form == 0:
-                        res = cell.get_neighborhood(r, ic)
+                        res = _with_budget(lambda: cell.get_neighborhood(r, ic))
                     elif form == 1:
-                        res = cell.get_neighborhood(radius=r, include_center=ic)
+                        res = _with_budget(lambda: cell.get_neighborhood(radius=r, include_center=ic))
                     else:
-                        res = cell.get_neighborhood(r, include_center=ic)
+                        res = _with_budget(lambda: cell.get_neighborhood(r, include_center=ic))
+                except _Budget:
+                    overrun = True   # every later query of this history is skipped: the check must terminate
+                    obs.append([-4])
+                    continue
                 except ValueError:
                     if r < 1:
                         obs.append([-1, E_RADIUS])
@@ -688,7 +739,15 @@ def run_impl(case):
                     raise
                 call = f"get_neighborhood(radius={r}, include_center={ic})"
             elif kind == "prop":
-                res = cell.neighborhood
+                if overrun:
+                    obs.append([-4])
+                    continue
+                try:
+                    res = _with_budget(lambda: cell.neighborhood)
+                except _Budget:
+                    overrun = True
+                    obs.append([-4])
+                    continue
                 r, ic = 1, False
                 call = "neighborhood"
             else:
@@ -728,7 +787,7 @@ def run_impl(case):
             obs.append([-1, 99])
             failures.append({"key": f"C07/{cls}/{kind}/unexpected-exception", "op": opi,
                              "what": f"{op} raised {type(e).__name__}: {e}"})
-    return {"obs": obs, "failures": failures, "ops_for_model": ops_for_model, "model": _model_affordable(case, conn)}
+    return {"obs": obs, "failures": failures, "ops_for_model": ops_for_model, "model": _model_affordable(case, conn) and not overrun and not case.get("oracle_only")}
 
 
 # ================================================================== model side
